@@ -8,6 +8,11 @@ by the database always equal the actual rows and bytes of the visible state."
 
 Model: Gsu/Model/Db.lean; `step` is what `drv_c03` executes. `s.mt` is the state every later
 transaction starts from.
+
+`info_exact` (all reachable states) is a corollary of the global invariant `DbInv` + the size
+invariant `SzInv` (Gsu/Proofs/DbInv1–9.lean), both kept by every `Op` of `step`. Hypotheses on
+the history: `OpsOK` (see C06) and, for sizes, `(newOffs ops).Nodup` — every record written gets
+an offset no earlier record got (append-only store, C18).
 -/
 import Gsu.Proofs.DbInv9
 import Gsu.Gen.Dbphys
